@@ -188,3 +188,53 @@ class FState:
 
     def trace(self):
         return float(np.real(np.trace(self.rho)))
+
+
+def selftest():
+    """RefFock against RefGauss on Gaussian circuits, closed forms for cat / number kets and the loss channel."""
+    from . import refgauss as rg
+
+    rng = np.random.default_rng(1)
+    # two-mode Gaussian circuit, both mode orders, dagger forms
+    for trial in range(3):
+        cmds = [("Sgate", [0.25, 0.4], [0], False), ("Dgate", [0.3, -0.7], [1], False),
+                ("BSgate", [0.6, 1.1], [1, 0] if trial % 2 else [0, 1], trial == 2),
+                ("S2gate", [0.2, 0.5], [0, 1] if trial % 2 else [1, 0], False), ("Rgate", [0.8], [1], trial == 1),
+                ("LossChannel", [0.7], [0], False)]
+        f = FState(2, D=24)
+        g = rg.GState(2)
+        for name, p, modes, dag in cmds:
+            assert rg.apply_op(g, name, p, modes, dag)
+            if name == "LossChannel":
+                f.loss(p[0], modes[0])
+            else:
+                f.gate(name, p, modes, dag)
+        mu, V = f.moments(2.0)
+        assert np.allclose(mu, g.mu, atol=1e-7) and np.allclose(V, g.V, atol=1e-7), ("reffock vs refgauss", trial)
+        assert abs(f.trace() - 1) < 1e-9
+    # number state: <n> = n, variance 0, parity (-1)^n; loss gives the binomial distribution
+    f = FState(1, D=20)
+    f.prepare_ket(FState.fock_ket(3, 20), 0)
+    assert np.allclose(f.mean_var_photon(0), (3.0, 0.0)) and abs(f.parity([0]) + 1) < 1e-12
+    f.loss(0.6, 0)
+    p = np.real(np.diag(f.rho))[:4]
+    assert np.allclose(p, [math.comb(3, k) * 0.6 ** k * 0.4 ** (3 - k) for k in range(4)])
+    # even / odd cat: parity +1 / -1, <n> = |a|^2 tanh / coth
+    for par, fn in ((0, np.tanh), (1, lambda x: 1 / np.tanh(x))):
+        f = FState(1, D=30)
+        f.prepare_ket(FState.cat_ket(1.2, 0.3, par, 30), 0)
+        assert abs(f.parity([0]) - (1 - 2 * par)) < 1e-10
+        assert abs(f.mean_var_photon(0)[0] - 1.2 ** 2 * fn(1.2 ** 2)) < 1e-9
+    # Kerr gate is diagonal: photon statistics untouched, coherent amplitude revival at kappa = pi
+    f = FState(1, D=30)
+    f.prepare_ket(FState.coherent_ket(0.9, 0.2, 30), 0)
+    p0 = np.real(np.diag(f.rho)).copy()
+    f.gate("Kgate", [np.pi], [0])
+    assert np.allclose(np.real(np.diag(f.rho)), p0)
+    assert abs(f.fidelity_coherent([-0.9 * np.exp(0.2j)]) - 1) < 1e-9
+    # preparation replaces the target and keeps the other mode's reduced state
+    f = FState(2, D=16)
+    f.gate("S2gate", [0.3, 0.0], [0, 1])
+    r1 = f.reduced(1).copy()
+    f.prepare_ket(FState.fock_ket(1, 16), 0)
+    assert np.allclose(f.reduced(1), r1) and abs(f.mean_var_photon(0)[0] - 1) < 1e-12
